@@ -128,14 +128,16 @@ impl Manifest {
             return Ok(vec![]);
         };
 
-        let mut data = String::new();
+        // (bytes, not a string: a crash can cut the last record inside a multi-byte character of
+        // a table or column name, which is a truncated tail like any other)
+        let mut data = Vec::new();
         file.seek(SeekFrom::Start(0)).await?;
         let mut reader = BufReader::new(file);
 
         // TODO: don't read all to memory
-        reader.read_to_string(&mut data).await?;
+        reader.read_to_end(&mut data).await?;
 
-        let stream = Deserializer::from_str(&data).into_iter::<ManifestOperation>();
+        let stream = Deserializer::from_slice(&data).into_iter::<ManifestOperation>();
 
         let mut ops = vec![];
         let mut buffered_ops = vec![];
